@@ -57,6 +57,9 @@ type caseC17 struct {
 	// a later /v2 next to v1) and calls both: whatever the package registers in process-wide namespaces at init (expvar, flag,
 	// metrics, gob types, hash registrations) must not collide with itself.
 	Fork bool `json:"fork,omitempty"`
+	// Go126: the program is built with the newer toolchain installed next to the default one (go1.26.8; thorough tier only: the
+	// first build of its standard library takes a minute)
+	Go126 bool `json:"go126,omitempty"`
 }
 
 // writeFork copies the non-test sources of the tree under test into dir/fork as module example.com/fork/secp256k1.
@@ -291,6 +294,9 @@ func main() {
 }
 `
 
+// go126 reports whether programs built with the newer toolchain are part of this run (thorough tier).
+func go126() bool { return os.Getenv("VERIF_TIER") == "thorough" }
+
 // idleLong is the long idle period: more than two minutes in the thorough tier, a second otherwise.
 func idleLong() int {
 	if os.Getenv("VERIF_TIER") == "thorough" {
@@ -364,7 +370,16 @@ func runC17(c caseC17, o *gen.Obs) error {
 			return &gen.Inconclusive{Msg: err.Error()}
 		}
 	}
-	build := exec.Command("go", "build", "-o", "prog", ".")
+	tool := "go"
+	if c.Go126 {
+		if path, lerr := exec.LookPath("go1.26.8"); lerr == nil {
+			tool = path
+			o.Class("toolchain:go1.26.8")
+		} else {
+			o.Class("skipped:no-newer-toolchain")
+		}
+	}
+	build := exec.Command(tool, "build", "-o", "prog", ".")
 	build.Dir, build.Env = dir, goEnv()
 	if c.Arch386 {
 		build.Env = append(build.Env, "GOARCH=386", "CGO_ENABLED=0")
@@ -509,6 +524,7 @@ var c17 = gen.Register(&gen.Check[caseC17]{
 			{Fn: "EncodeToGroup", Msg: "", Dst: hex.EncodeToString(bytes.Repeat([]byte{'x'}, 300)), DeadStderr: true},
 			{Fn: "HashToGroup", Msg: "616263", Dst: dst, IdleMs: 1200}, {Fn: "HashToScalar", Msg: "616263", Dst: hex.EncodeToString(bytes.Repeat([]byte{'i'}, 300)), IdleMs: idleLong()},
 			{Fn: "HashToGroup", Msg: "616263", Dst: dst, Fork: true}, {Fn: "HashToScalar", Msg: "616263", Dst: hex.EncodeToString(bytes.Repeat([]byte{'f'}, 300)), Fork: true},
+			{Fn: "HashToGroup", Msg: "616263", Dst: dst, Go126: go126()}, {Fn: "HashToScalar", Msg: "616263", Dst: hex.EncodeToString(bytes.Repeat([]byte{'n'}, 300)), Go126: go126(), Where: "goroutine"},
 			{Fn: "HashToGroup", Msg: "616263", Dst: dst, Outage: true}, {Fn: "EncodeToGroup", Msg: "616263", Dst: dst, Outage: true}, {Fn: "HashToScalar", Msg: "616263", Dst: dst, Outage: true},
 			{Fn: "HashToGroup", Msg: "616263", Dst: dst, Where: "init"}, {Fn: "HashToScalar", Msg: "616263", Dst: dst, Where: "finalizer"},
 			{Fn: "EncodeToGroup", Msg: "616263", Dst: dst, Where: "locked", SingleP: true}, {Fn: "HashToGroup", Msg: "", Dst: dst, Where: "goroutine"},
